@@ -295,7 +295,7 @@ def _close(ops):
     own, text = [], []
     for o in ops:
         w = o.split()
-        if w[0] in ("bi", "bf", "bc", "bs", "nis", "nda", "nia", "ndm", "nim", "nt", "bt", "get", "titem", "copy", "load"):
+        if w[0] in ("bi", "bf", "bc", "bs", "nis", "nda", "nia", "ndm", "nim", "nt", "bt", "get", "titem", "copy", "load", "nds"):
             own.append(1)
         if w[0] == "inc": own[int(w[1])] += 1
         if w[0] == "dec": own[int(w[1])] -= 1
@@ -317,3 +317,18 @@ def limit_load_cases(L):
                     out.append(_close(["bi 0 8 1", "load %s" % _hx(nest(k, d, (0x01,))), "load %s" % _hx(nest(k, d, (0x5F, 0x41, 0x00, 0xFF)))]))
         return out
     return gen
+
+
+def sethandle_cases(ctx):
+    """client-provided buffers: new definite string, set_handle, shorten in place, use in containers, copy, release"""
+    rng = ctx.rng
+    out = []
+    for t in (0, 1):
+        for data in ("-", "61", "c3a96162", "000102030405060708090a0b0c0d0e0f101112131415161718"):
+            n = 0 if data == "-" else len(data) // 2
+            out.append(_close(["nds %d" % t, "seth 0 %s" % data, "val 0", "ser 0 40"]))
+            for k in sorted({0, n // 2, max(0, n - 1), n}):
+                out.append(_close(["nds %d" % t, "seth 0 %s" % data, "shorten 0 %d" % k, "val 0", "ser 0 40", "copy 0", "ssize 1"]))
+            out.append(_close(["nds %d" % t, "seth 0 %s" % data, "nia", "push 1 0", "shorten 0 %d" % (n // 2), "copy 1", "ser 2 40"]))
+            out.append(_close(["nds %d" % t, "seth 0 %s" % data, "nis %d" % t, "chunk 1 0", "shorten 0 %d" % max(0, n - 1), "ser 1 40", "copy 1"]))
+    return out
